@@ -246,12 +246,17 @@ def uspec_term(a, spec, G='G'):
     Reference.v do not cover it (coarse / periodic grid, takes, binary options, other classes)"""
     g = spec['grid']
     k = a['kind']
-    if a.get('freq') and a['freq'] != g['freq'] or a.get('periodicity'):
+    if a.get('periodicity'):
         return None
+    coarse = bool(a.get('freq') and a['freq'] != g['freq'])
+    if coarse and (k not in ('SimpleContract', 'Transport', 'Storage') or a.get('block_size')):
+        return None            # RefCoarse.v: contracts, transports and storages on a coarser frequency (no take periods)
     tz = g.get('tz')
     s = inst(a['start'], tz) if a.get('start') else inst(g['start'], tz)
     e = inst(a['end'], tz) if a.get('end') else inst(g['end'], tz)
     rg = '(restrict %s %s %s %s)' % (G, C.qvec(discount(g, a.get('wacc', 0) or 0)), C.z(s), C.z(e))
+    if coarse:
+        rg = '(match %s with Some r_ => r_ | None => %s end)' % (rgrid_term(g, a, G), rg)
     if k == 'SimpleContract':
         cp = '(Build_contract_p %s %s %s %s %s %s)' % (
             C.s(a['name']), C.s(a['nodes'][0]), price_term(a.get('price'), spec),
